@@ -28,8 +28,9 @@ TABLE: List[Entry] = [
     ("R-WRITEBACK-MONO", None, None, {"C01", "C08", "C04"}),
     ("R-OFFSET-ROUNDTRIP", "bound_consistency", None, {"C01", "C13", "C08"}),
     # the tightening primitives: a wrong bound gives a wrong optimum / no termination, never an invalid assignment
-    ("R-OFFSET-ROUNDTRIP", "decrease_max", None, {"C03", "C13"}),
-    ("R-OFFSET-ROUNDTRIP", "increase_min", None, {"C03", "C13"}),
+    # (C04: a bound that does not move strictly past the incumbent lets the same solution be found for ever)
+    ("R-OFFSET-ROUNDTRIP", "decrease_max", None, {"C03", "C13", "C04"}),
+    ("R-OFFSET-ROUNDTRIP", "increase_min", None, {"C03", "C13", "C04"}),
     ("R-OFFSET-ROUNDTRIP", "get_solution", None, {"C01", "C03", "C13", "C02"}),
     # ---- search loop -------------------------------------------------------------------------------------
     ("R-SOLUTION", None, "none-return", {"C02", "C03"}),  # giving up early loses solutions; what is reported stays valid
@@ -61,6 +62,16 @@ TABLE: List[Entry] = [
     ("R-ANNOUNCE", "backtrack", None, {"C02", "C09"}),
     # ---- wake-up primitive ---------------------------------------------------------------------------------
     ("R-WAKEUP", None, None, {"C01", "C08"}),
+    # ---- optimisation loop: which clauses are also termination conditions
+    ("R-TIGHTEN", None, "reset-then-tighten", {"C03", "C04"}),
+    ("R-TIGHTEN", None, "emptiness-guard", {"C03", "C04"}),
+    ("R-TIGHTEN", None, "tighten-call", {"C03", "C04"}),
+    ("R-TIGHTEN", None, "tighten-args", {"C03", "C04"}),
+    ("R-TIGHTEN", None, None, {"C03"}),
+    # ---- shaving: the loop's own progress is also a termination matter
+    ("R-SHAVE", None, "round-without-probe", {"C04", "C10"}),
+    ("R-SHAVE", None, "no-advance-after-failed-probe", {"C04", "C10"}),
+    ("R-SHAVE", None, None, {"C10"}),
     # ---- capacity ------------------------------------------------------------------------------------------
     ("R-CAPACITY", None, None, {"C16", "C19", "C10"}),
 ]
